@@ -18,4 +18,4 @@ def run(F, rep):
     lemmas.exts_lemmas(F, rep)
     lemmas.lmer_lemmas(F, rep, which={"rc"})
     dt_seq.slice_view_tables(F, rep, "C12.4")
-    structural.dnastring_rc(F, rep)
+    lemmas.dnastring_lemmas(F, rep, which={"rc"})
